@@ -351,6 +351,6 @@ func init() {
 		Assume: []string{"WoD / Double Cross pools are outside the property's quantifier (their <= thresholds are not monotone)"},
 		Enumerate: c15Enumerate,
 		Run:       c15Run,
-		Budget:    map[string]time.Duration{"quick": 150 * time.Second, "thorough": 30 * time.Minute},
+		Budget:    map[string]time.Duration{"quick": 400 * time.Second, "thorough": 30 * time.Minute},
 	})
 }
